@@ -49,19 +49,22 @@ Section OneOr.
   (* serde: transparent over the untagged inner enum *)
   Definition oos_ser (v : oneorset) : jshape :=
     match v with OSOne x => JVal x | OSSet l => JArr l end.
-  (* untagged: One(T) first; Set via OrderedSet's try_from = "Vec<T>" + non-empty test *)
-  Definition oos_deser (j : jshape) : option oneorset :=
+  (* untagged: One(T) first; Set via OrderedSet's try_from = "Vec<T>" + non-empty test; since fix (OneOrSet::deserialize) a set of one
+     item is held as One, like every constructor does.  `pinned = true` is the tree before: ["a"] stayed a one-element Set *)
+  Definition oos_deser_gen (pinned : bool) (j : jshape) : option oneorset :=
     match j with
     | JVal x => Some (OSOne x)
     | JArr xs => match os_try_from_vec T K key keqb xs with
                  | Some [] => None
+                 | Some [x] => if pinned then Some (OSSet [x]) else Some (OSOne x)
                  | Some s => Some (OSSet s)
                  | None => None
                  end
     end.
-  (* the type's invariant: what values can exist at all (private inner enum) *)
+  Definition oos_deser := oos_deser_gen false.
+  (* the type's invariant: what values can exist at all (private inner enum): a Set holds at least two items *)
   Definition oos_wf (v : oneorset) : Prop :=
-    match v with OSOne _ => True | OSSet l => l <> [] /\ NoDup (map key l) end.
+    match v with OSOne _ => True | OSSet l => (2 <= length l)%nat /\ NoDup (map key l) end.
 
   (* ---------- OneOrMany ---------- *)
   Inductive oneormany := OMOne (x : T) | OMMany (l : list T).
